@@ -10,10 +10,11 @@ import sys, os, shutil, json, glob, hashlib, hmac, random, collections, time
 sys.path.insert(0, os.path.join(os.path.dirname(os.path.abspath(__file__)), '..', 'vlib'))
 from harness import main, Part, pmap, SAN_ENV, VERIF
 from p11client import Exec, Died, Hang, mkconf
-import tsanlog
+import tsanlog, keymat
 
 SO, USER = b'so-pin-18', b'user-pin-18'
-WORKLOADS = ['session-objects', 'token-writers', 'session-churn', 'login-churn', 'crypto', 'destroy-race', 'first-find']
+WORKLOADS = ['session-objects', 'token-writers', 'session-churn', 'login-churn', 'crypto', 'destroy-race', 'first-find', 'shared-key', 'keygen', 'keygen-token', 'two-token']
+USER2, SO2 = b'user-pin-18b', b'so-pin-18b'
 
 def setup(paths, ck, cfg, d, locking, seed, yield_p=0.2, yield_us=120, pre=None):
     mkconf(d, 'file'); env = dict(SAN_ENV)
@@ -39,8 +40,8 @@ def _strings(v):
     elif isinstance(v, list):
         for q in v: yield from _strings(q)
 
-def gen_script(ck, x, slot, tid, rnd, n_iter, wl, race_handles=()):
-    S = []; E = []
+def gen_script(ck, x, slot, tid, rnd, n_iter, wl, race_handles=(), extra=None):
+    S = []; E = []; extra = extra or {}
     def add(req, chk=None, dep=None):
         if dep is None:      # a step depends on every earlier step of this thread whose result it references
             refs = [int(v[1:].split('.')[0]) for v in _strings(req) if v.startswith('$')]; dep = [r for r in refs if r != 0]
@@ -59,6 +60,48 @@ def gen_script(ck, x, slot, tid, rnd, n_iter, wl, race_handles=()):
         for (lab, _) in race_handles:
             add({'fn': 'C_FindObjectsInit', 's': sref, 'tmpl': x.T({'CKA_LABEL': lab.encode()})}, ('ok',)); add({'fn': 'C_FindObjects', 's': sref, 'max': 8}, ('first-find', lab)); add({'fn': 'C_FindObjectsFinal', 's': sref}, ('ok',))
         add({'fn': 'C_CloseSession', 's': sref}, ('ok',)); return S, E
+    if wl == 'shared-key':      # every thread uses the SAME private token keys (one OSObject, one per-token AES context for the private attributes): results are deterministic
+        import refcrypt as R
+        rsa = extra['rsa']
+        for it in range(n_iter):
+            data = rnd.randbytes(rnd.choice([1, 20, 64, 100])); sig = rsa.sign_pkcs1(data, 'sha256').hex()
+            add({'fn': 'C_SignInit', 's': sref, 'mech': x.M('CKM_SHA256_RSA_PKCS'), 'key': extra['RSAK']}, ('ok',)); add({'fn': 'C_Sign', 's': sref, 'data': data.hex(), 'buf': 128}, ('out', sig))
+            add({'fn': 'C_VerifyInit', 's': sref, 'mech': x.M('CKM_SHA256_RSA_PKCS'), 'key': extra['RSAP']}, ('ok',)); add({'fn': 'C_Verify', 's': sref, 'data': data.hex(), 'sig': sig}, ('ok',))
+            iv = rnd.randbytes(16); pt = rnd.randbytes(rnd.choice([16, 32, 64]))
+            add({'fn': 'C_EncryptInit', 's': sref, 'mech': x.M('CKM_AES_CBC', hex=iv.hex()), 'key': extra['AESK']}, ('ok',)); add({'fn': 'C_Encrypt', 's': sref, 'data': pt.hex(), 'buf': len(pt)}, ('out', R.cbc(R.AES(keymat.AES16), iv, pt).hex()))
+            add({'fn': 'C_SignInit', 's': sref, 'mech': x.M('CKM_SHA256_HMAC'), 'key': extra['GENK']}, ('ok',)); add({'fn': 'C_Sign', 's': sref, 'data': data.hex(), 'buf': 32}, ('out', hmac.new(keymat.GEN32, data, hashlib.sha256).hexdigest()))
+            add({'fn': 'C_GetAttributeValue', 's': sref, 'o': extra['AESK'], 'tmpl': [{'t': ck.CKA_VALUE, 'buf': 16}]}, ('value', keymat.AES16.hex()))
+            add({'fn': 'C_GetAttributeValue', 's': sref, 'o': extra['RSAK'], 'tmpl': [{'t': ck.CKA_MODULUS, 'buf': 128}]}, ('value', keymat.K['rsa1024']['n'].lower().zfill(256)))
+        add({'fn': 'C_CloseSession', 's': sref}, ('ok',)); return S, E
+    if wl in ('keygen', 'keygen-token'):      # objects that come to exist through C_GenerateKey / C_GenerateKeyPair / C_UnwrapKey while other threads do the same
+        for it in range(n_iter):
+            lab = b'G%d-%d' % (tid, it); tok = wl == 'keygen-token' and rnd.random() < 0.6; priv = rnd.random() < 0.5
+            g = add({'fn': 'C_GenerateKey', 's': sref, 'mech': x.M('CKM_AES_KEY_GEN'), 'tmpl': x.T({'CKA_VALUE_LEN': 16, 'CKA_TOKEN': tok, 'CKA_PRIVATE': priv, 'CKA_LABEL': lab, 'CKA_ENCRYPT': True, 'CKA_DECRYPT': True, 'CKA_SENSITIVE': False, 'CKA_EXTRACTABLE': True})}, ('created', lab, tok)); gref = '$%d.h' % g
+            add({'fn': 'C_FindObjectsInit', 's': sref, 'tmpl': x.T({'CKA_LABEL': lab})}, ('ok',)); add({'fn': 'C_FindObjects', 's': sref, 'max': 8}, ('find-count', lab, 1)); add({'fn': 'C_FindObjectsFinal', 's': sref}, ('ok',))
+            gv = add({'fn': 'C_GetAttributeValue', 's': sref, 'o': gref, 'tmpl': [{'t': ck.CKA_VALUE, 'buf': 16}]}, ('ok',))
+            w = add({'fn': 'C_WrapKey', 's': sref, 'mech': x.M('CKM_AES_KEY_WRAP'), 'wkey': extra['WRAPK'], 'key': gref, 'buf': 64}, ('ok',))
+            u = add({'fn': 'C_UnwrapKey', 's': sref, 'mech': x.M('CKM_AES_KEY_WRAP'), 'ukey': extra['WRAPK'], 'wrapped': '$%d.out.data' % w, 'tmpl': x.T({'CKA_CLASS': ck.CKO_SECRET_KEY, 'CKA_KEY_TYPE': ck.CKK_AES, 'CKA_TOKEN': False, 'CKA_PRIVATE': priv, 'CKA_SENSITIVE': False, 'CKA_EXTRACTABLE': True, 'CKA_LABEL': lab + b'-u'})}, ('ok',)); uref = '$%d.h' % u
+            add({'fn': 'C_GetAttributeValue', 's': sref, 'o': uref, 'tmpl': [{'t': ck.CKA_VALUE, 'buf': 16}]}, ('same-value', gv), dep=[g, gv, w, u])
+            kp = add({'fn': 'C_GenerateKeyPair', 's': sref, 'mech': x.M('CKM_EC_KEY_PAIR_GEN'), 'pub': x.T({'CKA_EC_PARAMS': keymat.OID['p256'], 'CKA_VERIFY': True, 'CKA_TOKEN': tok, 'CKA_LABEL': lab + b'-pub'}),
+                      'priv': x.T({'CKA_SIGN': True, 'CKA_TOKEN': tok, 'CKA_PRIVATE': priv, 'CKA_LABEL': lab + b'-prv'})}, ('ok',))
+            data = rnd.randbytes(32)
+            add({'fn': 'C_SignInit', 's': sref, 'mech': x.M('CKM_ECDSA'), 'key': '$%d.hpriv' % kp}, ('ok',)); sg = add({'fn': 'C_Sign', 's': sref, 'data': data.hex(), 'buf': 64}, ('ok',))
+            add({'fn': 'C_VerifyInit', 's': sref, 'mech': x.M('CKM_ECDSA'), 'key': '$%d.hpub' % kp}, ('ok',)); add({'fn': 'C_Verify', 's': sref, 'data': data.hex(), 'sig': '$%d.out.data' % sg}, ('ok',))
+            add({'fn': 'C_DestroyObject', 's': sref, 'o': gref}, ('destroyed', lab))
+            for h in (uref, '$%d.hpriv' % kp, '$%d.hpub' % kp): add({'fn': 'C_DestroyObject', 's': sref, 'o': h}, ('ok',))
+        add({'fn': 'C_CloseSession', 's': sref}, ('ok',)); return S, E
+    if wl == 'two-token' and tid % 2 == 1:      # odd threads live on the SECOND token: sessions come and go (the last close logs that token out), while even threads work on the first
+        S.clear(); E.clear(); slot2 = extra['slot2']
+        for it in range(n_iter * 2):
+            o2 = add({'fn': 'C_OpenSession', 'slot': slot2}, ('ok',)); s2 = '$%d.h' % o2
+            add({'fn': 'C_Login', 's': s2, 'user': 1, 'pin': USER2.hex()}, ('rv-in', ('CKR_OK', 'CKR_USER_ALREADY_LOGGED_IN')))
+            add({'fn': 'C_GetSessionInfo', 's': s2}, ('state-user',), dep=[o2])
+            lab = b'B%d-%d' % (tid, it)
+            add({'fn': 'C_CreateObject', 's': s2, 'tmpl': x.T({'CKA_CLASS': ck.CKO_DATA, 'CKA_TOKEN': False, 'CKA_PRIVATE': True, 'CKA_LABEL': lab, 'CKA_VALUE': b'b' * 8})}, ('ok',))
+            add({'fn': 'C_FindObjectsInit', 's': s2, 'tmpl': x.T({'CKA_LABEL': lab})}, ('ok',)); add({'fn': 'C_FindObjects', 's': s2, 'max': 8}, ('find-count', lab, 1)); add({'fn': 'C_FindObjectsFinal', 's': s2}, ('ok',))
+            add({'fn': 'C_GetSlotList', 'null': True}, ('ok',)); add({'fn': 'C_GetTokenInfo', 'slot': rnd.choice([slot, slot2])}, ('ok',))
+            add({'fn': 'C_CloseSession', 's': s2}, ('ok',))
+        return S, E
     for it in range(n_iter):
         if wl == 'session-churn':
             o2 = add({'fn': 'C_OpenSession', 'slot': slot, 'flags': 4 | (2 if rnd.random() < 0.5 else 0)}, ('ok',)); s2 = '$%d.h' % o2
@@ -115,6 +158,11 @@ def judge_threads(ck, wl, scripts, exps, results, V):
             if any(res[j]['rv'] != 0 for j in dep): continue      # consequence of an earlier failure of this thread, which is reported where it happened
             k = chk[0]
             if k == 'ok' and st['rv'] != 0: V(f'{fn}|{wl}|{rvn}', f'{fn} failed although no sequential order lets it fail', {'thread': t, 'step': i, 'req': scripts[t][i]})
+            elif k == 'rv-in':
+                if rvn not in chk[1]: V(f'{fn}|{wl}|{rvn}', 'a return code that no sequential order explains', {'thread': t, 'step': i, 'allowed': chk[1]})
+            elif k == 'same-value':
+                a = st['tmpl'][0].get('data') if st.get('tmpl') else None; b = res[chk[1]]['tmpl'][0].get('data') if res[chk[1]].get('tmpl') else None
+                if st['rv'] != 0 or a != b: V(f'{fn}|{wl}|unwrapped-key-{rvn if st["rv"] else "differs-from-wrapped-key"}', 'a key wrapped and unwrapped by one thread does not read back the value it had', {'thread': t, 'step': i, 'got': a, 'want': b})
             elif k == 'rv' and rvn != chk[1]: V(f'{fn}|{wl}|{rvn}-instead-of-{chk[1]}', 'unexpected return code', {'thread': t, 'step': i})
             elif k == 'created':
                 if st['rv'] != 0: V(f'{fn}|{wl}|{rvn}', 'object creation failed although no sequential order lets it fail', {'thread': t, 'step': i, 'label': chk[1].decode()})
@@ -171,17 +219,17 @@ def stress_job(job):
     ck = CK(job['hdr']); part = Part(); cfg = job['cfg']; wl = job['wl']; seed = job['seed']; nth = job['threads']
     d = os.path.join(job['scratch'], f'st-{cfg}-{wl}-{seed}-{nth}'); shutil.rmtree(d, ignore_errors=True); os.makedirs(d)
     rnd = random.Random(seed); viol = []
-    oc = 'token-objects' if wl == 'token-writers' else 'session-objects-only'
+    tokwl = wl in ('token-writers', 'keygen-token'); oc = 'token-objects' if tokwl else 'session-objects-only'
     FAMILY_OWN = ('CKR_TEMPLATE_INCONSISTENT', 'CKR_GENERAL_ERROR', 'CKR_OBJECT_HANDLE_INVALID', 'own-object-readback', 'found-0-instead-of-1', 'object-lost', 'object-without-label', 'CKR_ATTRIBUTE_TYPE_INVALID', 'CKR_ATTRIBUTE_VALUE_INVALID')
     def V(key, what, detail):
         k = key.replace('|' + wl, '|' + oc)
-        if wl == 'token-writers':
+        if tokwl:
             # known root cause (DESIGN 4 row 20): ObjectFile::refresh drops and re-reads the attribute map without the object mutex, so a thread that is
             # still building its own new token object loses attributes; the symptoms vary, the family is one: own new token object damaged
             req = detail.get('req') or {}; shared = 'objs.0' in str(req.get('o', '')) or 'shared' in key
             if key.startswith('C_FindObjectsInit|') and 'CKR_GENERAL_ERROR' in key: pass
             elif shared and key.startswith('C_SetAttributeValue|') and key.endswith('CKR_GENERAL_ERROR'): k = 'token-objects|shared-object|concurrent-C_SetAttributeValue-refused(CKR_GENERAL_ERROR)'
-            elif not shared and any(f in key for f in FAMILY_OWN) and not key.startswith(('crash', 'deadlock', 'handle-issued-twice', 'C_Digest', 'C_Sign', 'C_Decrypt', 'C_Encrypt', 'C_OpenSession', 'C_CloseSession', 'C_Finalize')):
+            elif not shared and any(f in key for f in FAMILY_OWN) and not key.startswith(('crash', 'deadlock', 'handle-issued-twice', 'C_Digest', 'C_Decrypt', 'C_Encrypt', 'C_OpenSession', 'C_CloseSession', 'C_Finalize') + (() if wl == 'keygen-token' else ('C_Sign',))):
                 k = 'token-objects|own-new-object|attributes-lost-or-handle-invalid(ObjectFile::refresh window)'
         viol.append((k, what, detail))
     x = None
@@ -199,7 +247,21 @@ def stress_job(job):
             assert x.call('C_Finalize')['rv'] == 0 and x.call('C_Initialize', **x.init_args)['rv'] == 0
             slot = [sl for sl in x.call('C_GetSlotList', count=8)['slots'] if x.call('C_GetTokenInfo', slot=sl)['flags'] & ck.CKF_TOKEN_INITIALIZED][0]
             s0 = x.call('C_OpenSession', slot=slot)['h']; assert x.call('C_Login', s=s0, user=1, pin=USER.hex())['rv'] == 0
-        for t in range(nth): S, E = gen_script(ck, x, slot, t, rnd, job['iters'], wl, race_handles); scripts.append(S); exps.append(E)
+        extra = {}
+        def mk(t, **kw):
+            rr = x.call('C_CreateObject', s=s0, tmpl=x.T(dict(t, **kw))); assert rr['rv'] == 0, rr; return rr['h']
+        if wl == 'shared-key':
+            import refcrypt as R
+            KT = keymat.key_templates(ck); rk = keymat.K['rsa1024']; extra['rsa'] = R.RSAKey(int(rk['n'], 16), int(rk['e'], 16), int(rk['d'], 16), int(rk['p'], 16), int(rk['q'], 16))
+            extra['RSAK'] = mk(KT['rsa_priv'], CKA_TOKEN=True, CKA_PRIVATE=True, CKA_LABEL=b'RSAK', CKA_SENSITIVE=True, CKA_EXTRACTABLE=False); extra['RSAP'] = mk(KT['rsa_pub'], CKA_TOKEN=True, CKA_PRIVATE=False, CKA_LABEL=b'RSAP')
+            extra['AESK'] = mk(KT['aes'], CKA_TOKEN=True, CKA_PRIVATE=True, CKA_LABEL=b'AESK'); extra['GENK'] = mk(KT['generic'], CKA_TOKEN=False, CKA_PRIVATE=True, CKA_LABEL=b'GENK')
+        if wl in ('keygen', 'keygen-token'): extra['WRAPK'] = mk(keymat.key_templates(ck)['aes'], CKA_TOKEN=True, CKA_PRIVATE=False, CKA_LABEL=b'WRAPK')
+        if wl == 'two-token':
+            x.call('C_GetSlotList', null=True); free = [sl for sl in x.call('C_GetSlotList', count=8)['slots'] if not x.call('C_GetTokenInfo', slot=sl)['flags'] & ck.CKF_TOKEN_INITIALIZED][0]
+            assert x.call('C_InitToken', slot=free, pin=SO2.hex(), label=b'tok18b'.hex())['rv'] == 0; x.call('C_GetSlotList', null=True)
+            extra['slot2'] = [sl for sl in x.call('C_GetSlotList', count=8)['slots'] if sl != slot and x.call('C_GetTokenInfo', slot=sl)['flags'] & ck.CKF_TOKEN_INITIALIZED][0]
+            sb = x.call('C_OpenSession', slot=extra['slot2'])['h']; assert x.call('C_Login', s=sb, user=0, pin=SO2.hex())['rv'] == 0 and x.call('C_InitPIN', s=sb, pin=USER2.hex())['rv'] == 0 and x.call('C_CloseSession', s=sb)['rv'] == 0
+        for t in range(nth): S, E = gen_script(ck, x, slot, t, rnd, job['iters'], wl, race_handles, extra); scripts.append(S); exps.append(E)
         t0 = time.time()
         try: r = x.raw({'fn': 'threads', 'scripts': scripts, 'timeout': 600})
         except Died as ex:
@@ -423,11 +485,12 @@ def run(ctx):
     except FileNotFoundError: base = set()
     jobs = []; common = dict(paths=ctx.paths, hdr=ctx.paths['asan']['hdr'], scratch=ctx.scratch, race_baseline=base)
     seeds = ctx.q(4, 12); tcounts = ctx.q([8], [2, 4, 8, 16])
+    def ITERS(wl): return ctx.q(10, 20) if wl.startswith('keygen') else ctx.q(15, 30) if wl in ('shared-key', 'two-token') else ctx.q(25, 40)
     for wl in WORKLOADS:
         for nth in tcounts:
             for i in range(seeds):
                 locking = 'cb' if i % 2 == 0 else 'os'
-                jobs.append(dict(common, kind='stress', cfg='asan', wl=wl, threads=nth, seed=ctx.seed * 1000 + i, iters=ctx.q(25, 40), locking=locking, yield_p=[0.2, 0.03][(i // 2) % 2], yield_us=[120, 8000][(i // 2) % 2],
+                jobs.append(dict(common, kind='stress', cfg='asan', wl=wl, threads=nth, seed=ctx.seed * 1000 + i, iters=ITERS(wl), locking=locking, yield_p=[0.2, 0.03][(i // 2) % 2], yield_us=[120, 8000][(i // 2) % 2],
                                  pre=[None, None, ('null',), ('none',), ('os',), ('null', 'os')][(i + WORKLOADS.index(wl)) % 6]))
         if wl in ('first-find', 'destroy-race'):      # windows a few instructions wide between two critical sections: callbacks with stalls in every run, and more runs (they are short)
             for j in jobs:
@@ -435,7 +498,7 @@ def run(ctx):
             for i in range(ctx.q(6, 24)):
                 jobs.append(dict(common, kind='stress', cfg='asan', wl=wl, threads=[8, 6, 12][i % 3], seed=ctx.seed * 1000 + 300 + i, iters=ctx.q(25, 40), locking='cb', yield_p=[0.03, 0.5, 0.05][i % 3], yield_us=[8000, 40, 3000][i % 3]))
         for i in range(ctx.q(1, 6)):
-            jobs.append(dict(common, kind='stress', cfg='tsan', wl=wl, threads=ctx.q(6, 8), seed=ctx.seed * 1000 + 500 + i, iters=ctx.q(8, 12), locking='cb' if i % 2 == 0 else 'os'))
+            jobs.append(dict(common, kind='stress', cfg='tsan', wl=wl, threads=ctx.q(6, 8), seed=ctx.seed * 1000 + 500 + i, iters=max(4, ITERS(wl) // 3), locking='cb' if i % 2 == 0 else 'os'))
     for i in range(ctx.q(16, 64)):
         jobs.append(dict(common, kind='lin', threads=3 + (i % 2), seed=ctx.seed * 1000 + 900 + i, histories=ctx.q(25, 300), locking='cb' if i % 2 == 0 else 'os', variant=['held', 'held', 'free', 'handoff'][i % 4], yield_p=[0.2, 0.5][(i // 4) % 2], yield_us=[120, 1500][(i // 4) % 2]))
         if jobs[-1]['variant'] == 'handoff': jobs[-1].update(locking='cb', yield_p=0.04, yield_us=12000, histories=jobs[-1]['histories'] * 3)   # rare but long stalls at lock boundaries (one thread parked while the others run at full speed): finds atomicity windows a few instructions wide
@@ -443,7 +506,7 @@ def run(ctx):
     lh = ctx.obs.get('lock-order hashes', {}); ctx.extra['distinct_lock_order_hashes'] = len(lh.get('examples', []))
     ctx.rule = ('one evaluation = one concurrent run (2-16 threads x 25-40 iterations of the workload mix) or one linearizability-checked history (3-4 threads x 5-9 calls); '
                 'distinct = (build, workload, thread count, locking mode, hash of the observed (mutex, thread) acquisition order) resp. (history shape); non-trivial when at least two threads ran; '
-                'workloads: session-objects, token-writers, session-churn, login-churn, crypto; oracles: crash/ASan, watchdog, unexplained failures, own-object read-back, thread-local results vs hashlib/hmac, '
+                'workloads: ' + ', '.join(WORKLOADS) + ' (shared-key: all threads sign / encrypt / MAC with the same private token keys, results compared with refcrypt; keygen: C_GenerateKey / C_GenerateKeyPair / C_WrapKey / C_UnwrapKey per thread; two-token: half of the threads churn sessions and logins on a second token); oracles: crash/ASan, watchdog, unexplained failures, own-object read-back, thread-local results vs hashlib/hmac, '
                 'unique-label search counts, handle uniqueness, quiescent conservation, TSan race locations vs baseline, Wing-Gong linearizability search')
     ctx.assumptions += ['schedules are sampled (seeded yields at every application mutex callback), not enumerated', 'thread schedules cannot be replayed deterministically (no rr); the witness is the recorded history and the seeds',
                         'file back-end only, as the property says']
